@@ -46,6 +46,7 @@ class Choices:
         self.notes = {}
         self.fp_tags = []  # (argument path prefix, tag) pairs that refine C15 fingerprints
         self.last_weights = None
+        self.refit = 1  # C16: how many times an estimator object is fitted before its result is taken
         self.dtype = {"float32": np.float32, "int64": np.int64, "complex128": np.complex128}.get(dtype, np.float64)  # per-workload data dtype
 
     def idx(self, n):
@@ -180,6 +181,20 @@ def _cb(g):
     return g.callback
 
 
+def _refit(g, est, method, *args):
+    """Fit the same estimator object g.refit times and return the last result: with an integer
+    random_state every fit must start from the seed again, so the number of earlier fits cannot matter."""
+    n = max(1, g.refit)
+    if not isinstance(getattr(est, "init", "svd"), str):
+        # a user-supplied initialisation object is handed to every fit; the (known, C15) in-place rescaling of
+        # non-unit-weight initialisations would make the second fit start elsewhere - not an RNG matter
+        n = 1
+    out = None
+    for _ in range(n):
+        out = getattr(est, method)(*args)
+    return out
+
+
 _SVD_CALLABLES = {}
 
 
@@ -278,7 +293,7 @@ def e_CP(g):
 
     def fn(tensor, **opts):
         est = D.CP(**opts)
-        out = est.fit_transform(tensor)
+        out = _refit(g, est, "fit_transform", tensor)
         return out, getattr(est, "errors_", None)
 
     return dict(fn=fn, kwargs=dict(tensor=tensor, **kw))
@@ -341,7 +356,7 @@ def e_CPNNHALS(g):
     tensor = g.low_rank(shape, 2, nonneg=True)
 
     def fn(tensor, **opts):
-        return D.CP_NN_HALS(**opts).fit_transform(tensor)
+        return _refit(g, D.CP_NN_HALS(**opts), "fit_transform", tensor)
 
     return dict(fn=fn, kwargs=dict(tensor=tensor, **kw))
 
@@ -359,7 +374,7 @@ def e_CPNN(g):
     tensor = g.low_rank(shape, 2, nonneg=True)
 
     def fn(tensor, **opts):
-        return D.CP_NN(**opts).fit_transform(tensor)
+        return _refit(g, D.CP_NN(**opts), "fit_transform", tensor)
 
     return dict(fn=fn, kwargs=dict(tensor=tensor, **kw))
 
@@ -427,7 +442,7 @@ def e_ConstrainedCP(g):
     tensor = g.low_rank(shape, 2, nonneg=True)
 
     def fn(tensor, **opts):
-        return D.ConstrainedCP(**opts).fit_transform(tensor)
+        return _refit(g, D.ConstrainedCP(**opts), "fit_transform", tensor)
 
     return dict(fn=fn, kwargs=dict(tensor=tensor, **kw))
 
@@ -484,7 +499,7 @@ def e_Tucker(g):
     tensor = g.low_rank(shape, 2)
 
     def fn(tensor, **opts):
-        return D.Tucker(**opts).fit_transform(tensor)
+        return _refit(g, D.Tucker(**opts), "fit_transform", tensor)
 
     return dict(fn=fn, kwargs=dict(tensor=tensor, **kw))
 
@@ -613,7 +628,7 @@ def e_Parafac2(g):
     slices = _slices(g, 3, 3, [4, 4, 4])
 
     def fn(tensor_slices, **opts):
-        return D.Parafac2(**opts).fit_transform(tensor_slices)
+        return _refit(g, D.Parafac2(**opts), "fit_transform", tensor_slices)
 
     return dict(fn=fn, kwargs=dict(tensor_slices=slices, **kw))
 
@@ -650,7 +665,7 @@ def e_RandomizedCP(g):
     tensor = g.low_rank(shape, 2)
 
     def fn(tensor, **opts):
-        return D.RandomizedCP(**opts).fit_transform(tensor)
+        return _refit(g, D.RandomizedCP(**opts), "fit_transform", tensor)
 
     return dict(fn=fn, kwargs=dict(tensor=tensor, **kw))
 
@@ -695,7 +710,7 @@ def e_TRALS(g):
     tensor = g.low_rank(shape, 2)
 
     def fn(tensor, **opts):
-        return D.TensorRingALS(**opts).fit_transform(tensor)
+        return _refit(g, D.TensorRingALS(**opts), "fit_transform", tensor)
 
     return dict(fn=fn, kwargs=dict(tensor=tensor, **kw))
 
@@ -709,7 +724,7 @@ def e_TRALSS(g):
     tensor = g.low_rank(shape, 2)
 
     def fn(tensor, **opts):
-        return D.TensorRingALSSampled(**opts).fit_transform(tensor)
+        return _refit(g, D.TensorRingALSSampled(**opts), "fit_transform", tensor)
 
     return dict(fn=fn, kwargs=dict(tensor=tensor, **kw))
 
@@ -1419,7 +1434,7 @@ def e_cpreg(g):
 
     def fn(X, y, X_test, **o):
         est = CPRegressor(**o)
-        est.fit(X, y)
+        _refit(g, est, "fit", X, y)
         return est.predict(X_test), est.weight_tensor_, est.cp_weight_
 
     return dict(fn=fn, kwargs=dict(X=X, y=y, X_test=Xt, **opts))
@@ -1441,7 +1456,7 @@ def e_tuckerreg(g):
 
     def fn(X, y, X_test, **o):
         est = TuckerRegressor(**o)
-        est.fit(X, y)
+        _refit(g, est, "fit", X, y)
         return est.predict(X_test), est.weight_tensor_, est.tucker_weight_
 
     return dict(fn=fn, kwargs=dict(X=X, y=y, X_test=Xt, **opts))
@@ -1466,15 +1481,15 @@ def e_plsr(g):
     def fn(X, Y, X_test, Y_test, **o):
         est = CP_PLSR(**o)
         if how == "fit_predict":
-            est.fit(X, Y)
+            _refit(g, est, "fit", X, Y)
             return est.predict(X_test), est.X_factors, est.Y_factors
         if how == "fit_transform":
-            est.fit(X, Y)
+            _refit(g, est, "fit", X, Y)
             return est.transform(X_test), est.X_factors
         if how == "transform_with_Y":
-            est.fit(X, Y)
+            _refit(g, est, "fit", X, Y)
             return est.transform(X_test, Y_test)
-        return est.fit_transform(X, Y), est.transform(X_test, Y_test)
+        return _refit(g, est, "fit_transform", X, Y), est.transform(X_test, Y_test)
 
     return dict(fn=fn, kwargs=dict(X=X, Y=Y, X_test=Xt, Y_test=Yt, **opts))
 
